@@ -275,10 +275,10 @@ def failed_install_segment(rep, tier, seed, label='gc-after-failed-install'):
         work = os.path.join(out, 'b%d' % h); os.makedirs(work, exist_ok=True)
         rc, o, e, evs, sh = k3lib.run_traced(k3, os.path.join(work, 'db'), opts, ops, work, fail='999999999:5:0:0', logidx=True)
         shutil.rmtree(work, ignore_errors=True)
-        sites = [ev['idx'] for ev in evs if ev['k'] == 'I' and ((ev['name'].startswith('MANIFEST') and ev['what'] in ('write', 'fsync')) or (ev['what'] == 'fsync' and ev['name'] == '.'))]
-        dirsites = [ev['idx'] for ev in evs if ev['k'] == 'I' and ev['what'] == 'fsync' and ev['name'] == '.']
+        sites = [ev['idx'] for ev in evs if ev['k'] == 'I' and (((ev['name'].startswith('MANIFEST') or ev['name'].endswith('.dbtmp')) and ev['what'] in ('write', 'fsync', 'close')) or (ev['what'] == 'fsync' and ev['name'] == '.'))]
+        dirsites = [ev['idx'] for ev in evs if ev['k'] == 'I' and ((ev['what'] == 'fsync' and ev['name'] == '.') or ev['name'].endswith('.dbtmp'))]
         if tier == 'quick' and len(sites) > 40:
-            sites = sorted(set(dirsites[-12:]) | set(rng.choice(sites) for _ in range(30)))
+            sites = sorted(set(dirsites[-20:]) | set(rng.choice(sites) for _ in range(26)))
         for k in sites:
             jobs.append((k3, k2, os.path.join(out, 'f%d_%d' % (h, len(jobs))), opts, ops, batches, '%d:5:0:%d' % (k, rng.below(2)), 'h%d' % h))
     with ThreadPoolExecutor(vlib.NCPU) as ex:
